@@ -12,3 +12,6 @@ if __name__ == "__main__":
         p.write_text(content)
         (Path(__file__).resolve().parent.parent / "lean" / "JinjaV" / "Gen" / name).write_text(content)
         print("baseline", name, len(content))
+    from harness import core
+    (Path(__file__).resolve().parent / "baseline" / "SOURCE.sha256").write_text(core.source_fingerprint() + "\n")
+    print("baseline SOURCE.sha256", core.source_fingerprint()[:16])
